@@ -25,6 +25,103 @@ func replayMode(r *common.Run, sk *sink) {
 		runCatchUp(r, sk, c, r.Rand("catchup", c), r.SubSeed("catchup-seed", c))
 		r.Flush()
 	}
+	// directed: snapshots requested by the user whose compaction index lies below the one of the
+	// snapshot before (a larger CompactionOverhead, an explicit lower CompactionIndex)
+	for _, c := range r.MyCases(r.Pick(4, 32)) {
+		runCompactionBack(r, sk, c, r.Rand("compaction-back", c), r.SubSeed("compaction-back-seed", c))
+		r.Flush()
+	}
+}
+
+// runCompactionBack: one replica set, a writer, and a user who requests snapshots in quick
+// succession with compaction overheads / indexes that move the compaction point back and forth.
+// Every request must be answered, nothing may crash, and every replica must equal the replay of
+// the committed log afterwards (C08: compaction never removes what no snapshot covers).
+func runCompactionBack(r *common.Run, sk *sink, caseNo int, rng *rand.Rand, seed int64) {
+	kind := []cluster.SMKind{cluster.Regular, cluster.Concurrent, cluster.OnDisk}[rng.Intn(3)]
+	store := cluster.Pebble
+	if rng.Intn(3) == 0 {
+		store = cluster.Tan
+	}
+	fmt.Printf("compaction-back case %d sm %s store %s\n", caseNo, kind, store)
+	c := cluster.NewCluster(cluster.Options{Hosts: 3, Seed: seed, RTTMs: 5, Store: store,
+		SMOpt: func(uint64, uint64) cluster.SMOptions { return cluster.SMOptions{Kind: kind, RecordApply: true} }}, sk)
+	const shardID = 1
+	if err := c.StartAll(); err != nil {
+		r.Inconclusive(fmt.Sprintf("compaction-back case %d: start failed: %v", caseNo, err))
+		return
+	}
+	defer c.StopAll()
+	members := c.Members(3)
+	replicas := map[uint64]int{1: 0, 2: 1, 3: 2}
+	for i := 0; i < 3; i++ {
+		cfg := cluster.ShardConfig(shardID, uint64(i+1))
+		cfg.SnapshotEntries, cfg.CompactionOverhead = uint64(rng.Intn(2)*10), 2
+		if err := c.Hosts[i].StartReplica(members, false, kind, cfg); err != nil {
+			r.Inconclusive(fmt.Sprintf("compaction-back case %d: %v", caseNo, err))
+			return
+		}
+	}
+	if !waitFor(15*time.Second, func() bool { return c.LeaderHost(shardID, replicas) >= 0 }) {
+		r.Inconclusive(fmt.Sprintf("compaction-back case %d: no leader", caseNo))
+		return
+	}
+	var stopFlag int32
+	var wg sync.WaitGroup
+	wg.Add(1)
+	go func() {
+		defer wg.Done()
+		prng := rand.New(rand.NewSource(seed + 5))
+		for atomic.LoadInt32(&stopFlag) == 0 {
+			if li := c.LeaderHost(shardID, replicas); li >= 0 {
+				if nh := c.Hosts[li].NodeHost(); nh != nil {
+					ctx, cancel := context.WithTimeout(context.Background(), 300*time.Millisecond)
+					_, _ = nh.SyncPropose(ctx, nh.GetNoOPSession(shardID), cluster.MakeCmd(byte(prng.Intn(2)), cluster.NewID()))
+					cancel()
+				}
+			}
+		}
+	}()
+	time.Sleep(200 * time.Millisecond)
+	var answered, completed int64
+	h := c.Hosts[rng.Intn(3)]
+	for i := 0; i < 150; i++ {
+		nh := h.NodeHost()
+		if nh == nil {
+			break
+		}
+		opt := dragonboat.SnapshotOption{OverrideCompactionOverhead: true}
+		switch i % 3 {
+		case 0:
+			opt.CompactionOverhead = 1
+		case 1:
+			opt.CompactionOverhead = uint64(8 + rng.Intn(20))
+		default:
+			// an explicit compaction index well below the previous ones
+			opt.CompactionIndex = uint64(2 + rng.Intn(10))
+		}
+		rs, err := nh.RequestSnapshot(shardID, opt, time.Second)
+		if err != nil {
+			time.Sleep(time.Millisecond)
+			continue
+		}
+		res := <-rs.ResultC()
+		rs.Release()
+		answered++
+		if res.Completed() {
+			completed++
+		}
+		if rng.Intn(3) == 0 {
+			time.Sleep(time.Duration(rng.Intn(3)) * time.Millisecond)
+		}
+	}
+	atomic.StoreInt32(&stopFlag, 1)
+	wg.Wait()
+	sk.Count("compaction_back_snapshot_requests_answered", answered)
+	sk.Count("compaction_back_snapshot_requests_completed", completed)
+	converged := waitFor(20*time.Second, func() bool { return sameState(c, shardID, replicas) })
+	replayCheck(c, sk, shardID, replicas, caseNo, "after-compaction-back")
+	r.Case(completed >= 20 && converged, common.Hash("compaction-back", caseNo, kind.String(), store.String(), completed))
 }
 
 func runCatchUp(r *common.Run, sk *sink, caseNo int, rng *rand.Rand, seed int64) {
@@ -53,7 +150,14 @@ func runCatchUpKind(r *common.Run, sk *sink, caseNo int, mostlyOnDisk bool, rng 
 	}
 	cycles := 8 + rng.Intn(6)
 	fmt.Printf("catch-up case %d sm %s store %s snapshotEntries %d overhead %d slowPrepare %v slowSync %v cycles %d\n", caseNo, kind, store, snap, overhead, slow, slowSync, cycles)
-	c := cluster.NewCluster(cluster.Options{Hosts: 4, Seed: seed, RTTMs: 5, Store: store,
+	// in half of the cases SaveRaftState dwells 1-6 ms before it writes (a slow disk): committed
+	// entries handed to the apply worker before the update is persisted (fast apply) get further
+	// ahead of the durable hard state
+	saveDelay := time.Duration(0)
+	if sd := rand.New(rand.NewSource(seed ^ 0x5ade)); sd.Intn(2) == 0 {
+		saveDelay = time.Duration(1+sd.Intn(6)) * time.Millisecond
+	}
+	c := cluster.NewCluster(cluster.Options{Hosts: 4, Seed: seed, RTTMs: 5, Store: store, SaveDelay: saveDelay,
 		SMOpt: func(uint64, uint64) cluster.SMOptions {
 			return cluster.SMOptions{Kind: kind, RecordApply: true, RaceCanary: true, SlowPrepare: slow, SlowSync: slowSync}
 		}}, sk)
@@ -160,7 +264,8 @@ func runCatchUpKind(r *common.Run, sk *sink, caseNo int, mostlyOnDisk bool, rng 
 			// leaves RecoverFromSnapshot, enters the Sync that follows it (on-disk), saves a snapshot of
 			// its own, or a few milliseconds into the repair
 			h := c.Hosts[f]
-			sites := []int32{cluster.SiteRecoverExit, cluster.SiteSaveEntry, cluster.SiteSaveExit, 0}
+			sites := []int32{cluster.SiteRecoverExit, cluster.SiteSaveEntry, cluster.SiteSaveExit, 0,
+				cluster.SiteSnapshotRecordedAheadOfCommit, cluster.SiteSnapshotRecordedAheadOfCommit}
 			if kind == cluster.OnDisk {
 				sites = append(sites, cluster.SiteSyncAfterRecover, cluster.SiteSyncAfterRecover, cluster.SiteAnySync)
 			}
